@@ -387,6 +387,7 @@ type cellIn struct {
 	Resume bool   `json:"resume"`
 	MState string `json:"mstate"` // active | revoked | expired | inactive | missing  (state of the NAMED mapping; of the tunnel's mapping when none is named)
 	TState string `json:"tstate"` // none | waiting | served | remote
+	Party  string `json:"party"`  // "" / normal | listen0 (stored listening client id 0: server-side listener) | target0 (stored target client id 0)
 }
 
 type cellOut struct {
@@ -470,12 +471,19 @@ func runCell(wLocal, wRemote *world, in cellIn) (out cellOut) {
 	}
 	k1 := fmt.Sprintf("k%d-one-secret", cellSeq)
 	k2 := fmt.Sprintf("k%d-two-secret", cellSeq)
-	m1 := mk(w.L.id, w.T.id, k1)
 	own := me.id
 	if own == 0 {
 		own = w.S.id
 	}
-	m2 := mk(own, w.X.id, k2)
+	l1, t1, l2, t2 := w.L.id, w.T.id, own, w.X.id
+	switch in.Party {
+	case "listen0":
+		l1, l2 = 0, 0
+	case "target0":
+		t1, t2 = 0, 0
+	}
+	m1 := mk(l1, t1, k1)
+	m2 := mk(l2, t2, k2)
 
 	var conns []*types.Connection
 	var fakes []*fakeConn
@@ -508,6 +516,25 @@ func runCell(wLocal, wRemote *world, in cellIn) (out cellOut) {
 	legit := &packet.TunnelOpenRequest{MappingID: m1.ID, TunnelID: tunnelID, SecretKey: k1}
 	switch in.TState {
 	case "waiting", "served":
+		if in.Party == "listen0" {
+			// a server-side listener: the SERVER starts the tunnel itself (StartServerTunnel chooses the tunnel id)
+			if in.TState == "served" {
+				panic("generator: no 'served' state for a server-side listener")
+			}
+			w.seq++
+			srcFake = newFakeConn("198.51.99.9", 30000+w.seq%20000)
+			fakes = append(fakes, srcFake)
+			id, err := w.fx.Session.StartServerTunnel(m1.ID, srcFake)
+			must(err)
+			tunnelID = id
+			if b := w.fx.Session.VerifBridge(tunnelID); b == nil || b.GetMappingID() != m1.ID {
+				panic("StartServerTunnel did not register the bridge")
+			}
+			break
+		}
+		if in.Party == "target0" && in.TState == "served" {
+			panic("generator: no 'served' state for a mapping without target client")
+		}
 		var a ackObs
 		srcFake, srcConn, a = open(w.L, legit)
 		b := w.fx.Session.VerifBridge(tunnelID)
@@ -652,8 +679,10 @@ func runCell(wLocal, wRemote *world, in cellIn) (out cellOut) {
 		tunnelMapping = map[string]string{"none": "", "tunnel": "m1", "other": "m2"}[in.Mid]
 	}
 	namedMapping := map[string]string{"none": "", "tunnel": "m1", "other": "m2"}[in.Mid]
-	isListen := (tunnelMapping == "m1" && in.ID == "listen") || (tunnelMapping == "m2" && authenticated)
-	isTarget := tunnelMapping == "m1" && in.ID == "target"
+	// a stored party id 0 means "nobody" (server-side listener / no target client): no connection is that party, least of all an
+	// unauthenticated one whose client id is also 0
+	isListen := ((tunnelMapping == "m1" && in.ID == "listen") || (tunnelMapping == "m2" && authenticated)) && in.Party != "listen0"
+	isTarget := tunnelMapping == "m1" && in.ID == "target" && in.Party != "target0"
 	valid := in.MState == "active" || in.MState == "soon60s" // the state dimension applies to the named mapping, which must be the tunnel's mapping anyway
 	out.Entitled = authenticated && tunnelMapping != "" && namedMapping == tunnelMapping && valid &&
 		((isListen && in.Secret == "none") || ((isListen || isTarget) && in.Secret == "right"))
@@ -805,6 +834,7 @@ func gen() {
 	// does the secret-key path consult IsValid on this tree? (right secret, target client, revoked mapping)
 	sb.WriteString("(* dimensions of the dispatcher table driven through SessionManager.HandlePacket (lib/props/c04.py) *)\n")
 	sb.WriteString("Definition table_dims : list N := [5; 3; 10; 2; 10; 4].\n")
+	sb.WriteString("(* sub-table with the mapping-party dimension (listen id 0 / target id 0) *)\nDefinition party_dims : list N := [2; 5; 3; 4; 1; 3; 3].\n")
 	sb.WriteString("Close Scope N_scope.\n")
 	fmt.Print(sb.String())
 }
